@@ -657,6 +657,21 @@ def parse_fields(value: bytes) -> Generator[ParsedField, None, None]:
         )
 
 
+def _values_equal(a: Any, b: Any) -> bool:
+    """Field value equality. We consider two nan values to be the same for the
+    purposes of comparing messages (otherwise a message is not equal to itself),
+    also when they are items of a repeated field or values of a map."""
+    if a == b:
+        return True
+    if isinstance(a, float) and isinstance(b, float):
+        return math.isnan(a) and math.isnan(b)
+    if isinstance(a, list) and isinstance(b, list):
+        return len(a) == len(b) and all(_values_equal(x, y) for x, y in zip(a, b))
+    if isinstance(a, dict) and isinstance(b, dict):
+        return a.keys() == b.keys() and all(_values_equal(v, b[k]) for k, v in a.items())
+    return False
+
+
 class ProtoClassMetadata:
     __slots__ = (
         "oneof_group_by_field",
@@ -801,19 +816,8 @@ class Message(ABC):
             elif other_val is PLACEHOLDER:
                 other_val = other._get_field_default(field_name)
 
-            if self_val != other_val:
-                # We consider two nan values to be the same for the
-                # purposes of comparing messages (otherwise a message
-                # is not equal to itself)
-                if (
-                    isinstance(self_val, float)
-                    and isinstance(other_val, float)
-                    and math.isnan(self_val)
-                    and math.isnan(other_val)
-                ):
-                    continue
-                else:
-                    return False
+            if not _values_equal(self_val, other_val):
+                return False
 
         return True
 
